@@ -415,7 +415,9 @@ def body(chk, db, cfgname):
     b = ("param", g.params[0]["d"], g.params[0]["n"])
     rets = [j for j, n in g.walk(g.body) if n["k"] == "return"]
     site = DM + "::isRetained"
-    k = deconv(gctx.key(g.nodes[rets[0]]["sub"])) if rets else None
+    k = deconv(gctx.key(g.nodes[rets[0]]["sub"])) if len(rets) == 1 else None
+    if len(rets) > 1:
+        raise AnalysisBroken("DensityMatrix::isRetained: several returns (not analysed)")
     want = [("mcall", DMP + "::isRetained", ("op", "[]", fld(DM + "::parts"), b)), ("field", DMP + "::retained", ("op", "[]", fld(DM + "::parts"), b))]
     if k in want:
         r2.ok(site, g.loc(), "reads the flag of part `in`", cfgname)
@@ -427,6 +429,8 @@ def body(chk, db, cfgname):
     ctor = [x for x in db.fns_named(DMP + "::DensityMatrixPart") if x.kind == "ctor" and len(x.params) == 4]
     init_true = any(i.get("field") == "retained" and Ctx(c, db).key(i["e"]) == ("lit", 1) for c in ctor for i in c.d.get("inits", []))
     site = DMP + "::isRetained"
+    if len(rets) > 1:
+        raise AnalysisBroken("DensityMatrixPart::isRetained: several returns (not analysed)")
     if rets and gctx.key(g.nodes[rets[0]]["sub"]) == ret and init_true:
         r2.ok(site, g.loc(), "returns retained; blocks start retained", cfgname)
     else:
